@@ -30,7 +30,7 @@ CLAIMS = {
          "address order incl. zero-size data; capacity = fold over variants; record alignment = max of powers of two).", "4 C02", L_NOTE,
          "Lean 4 theorem (invariant) + correspondence"),
  "C03": ("Theorem C03_offset_stable: every datum of a closed variant keeps its whole description in every later state (frame "
-         "property of each strategy + freshness of ids), for all histories; C03_same_layout, C03_layout_holds_capacity, C03_vec_element_addresses (one element size for all variants; every datum of element i aligned and inside the element, under the modelled repr(align) rule).", "4 C03", L_NOTE,
+         "property of each strategy + freshness of ids), for all histories; C03_same_layout, C03_layout_holds_capacity, C03_vec_elements_disjoint (data of different elements never overlap, whichever variants the elements hold), C03_vec_element_addresses (one element size for all variants; every datum of element i aligned and inside the element, under the modelled repr(align) rule).", "4 C03", L_NOTE,
          "Lean 4 theorem (frame/stability by induction) + correspondence"),
  "C13": ("Theorems C13_close_no_panic, C13_display_no_panic, C13_maxSize_no_panic: no strategy panic site, no Display clash, "
          "no capacity overflow on any accepted history. C13_generate_no_panic (generate() itself does not panic, any fragment selection); C13_bodies_pass_move_and_mut_rules: every generated function body (constructors, unpack, drop, the four conversion forms) passes two more modelled compiler rules - bindings used only while in scope and not moved out (E0382/E0425), `data` stored into only when declared mut (E0596) - for every definition built from valid requests whose field names avoid the template bindings; the checker is also evaluated by the driver on every sampled module (chk=).", "4 C13", L_NOTE,
